@@ -40,6 +40,8 @@ pub struct Ctx {
     pub quiet: bool,
     /// C17: schedule prefix forced on the next `conc` request; decisions and outcome of the last one
     pub forced_schedule: Vec<usize>,
+    /// thread ids of a recorded schedule (`@sched=` annotation of a replayed program)
+    pub forced_ids: Vec<usize>,
     pub last_decisions: Vec<(usize, usize, usize)>,
     pub last_outcome: Option<(Vec<Vec<String>>, String)>,
 }
@@ -310,6 +312,7 @@ macro_rules! flavour_mod {
                     ctx.quiet = li < quiet_until;
                     // run-time annotations (`@order=...`, `@abs=...`) are regenerated on every execution
                     let clean: String = raw.split(' ').filter(|x| !x.starts_with('@')).collect::<Vec<_>>().join(" ");
+                    ctx.forced_ids = raw.split(' ').find_map(|x| x.strip_prefix("@sched=")).map(|s| s.split(',').filter_map(|y| y.parse().ok()).collect()).unwrap_or_default();
                     let raw = &clean;
                     ext.annot = None;
                     let (body, via) = match raw.split_once(" #via=") {
